@@ -65,6 +65,7 @@ class Bwd:
         self.cmp_consts = set()    # names of unevaluated constants compared with something in the slice
         self.local_calls = set()
         self.limb_reads = []       # (root param, block, index descr)
+        self._ctrl_seen = set()
 
     def operand(self, op, at_block):
         if op.get("o") == "const":
@@ -85,6 +86,19 @@ class Bwd:
         v = self.v
         if v.is_arg(l):
             return
+        # control dependence: a local assigned on different branches (`a || b`, `if c { x = .. } else { x = .. }`)
+        # depends on the conditions that select the assignment
+        dblocks = {bi for bi, _si, _s in v.defs.get(l, []) if bi in v.reachable}
+        if len(dblocks) >= 2:
+            doms = [set(v.dom.get(b, ())) | {b} for b in dblocks]
+            common = set.intersection(*doms)
+            deepest = max(common, key=lambda b: len(v.dom.get(b, ()))) if common else None
+            ctrl = (set.union(*doms) - common) | ({deepest} if deepest is not None else set())
+            for b in ctrl:
+                t = v.blocks[b]["term"]
+                if t["t"] == "switch" and b not in self._ctrl_seen:
+                    self._ctrl_seen.add(b)
+                    self.operand(t["discr"], b)
         for bi, si, s in v.defs.get(l, []):
             if bi not in v.reachable:
                 continue
